@@ -114,7 +114,9 @@ class HypercuboidPeriodicBoundaries(PeriodicBoundaries):
         float
             The position entry corrected for periodic boundaries.
         """
-        return position_entry % system_lengths[index]
+        corrected_entry = position_entry % system_lengths[index]
+        # The float modulo rounds to the system length itself for tiny negative entries, which lies outside of [0, L).
+        return corrected_entry if corrected_entry != system_lengths[index] else 0.0
 
     @staticmethod
     def separation_vector(reference_position: Sequence[float],
